@@ -741,6 +741,9 @@ def run_playback(test_name, release, workdir, mode="O"):
     text = open(logf, errors="replace").read()
     m = re.search(r"test result: (\w+)\. (\d+) passed; (\d+) failed", text)
     if not m:
+        # the test process died (e.g. abort while unwinding) after the harness panicked: that is still a reproduction
+        if re.search(r"panicked at .*\n", text) and "running 1 test" in text:
+            return "reproduced", logf
         return "build-error", logf
     if int(m.group(2)) + int(m.group(3)) != 1:
         return "not-run", logf
@@ -914,8 +917,22 @@ def main():
                     # the same harness, so one of them failing natively at the assertion is a reproduction as well
                     fail_tests = [t for t in tests if t["name"]]
                 if not fail_tests:
-                    inconclusive.append(f"{h.name}: Kani reported failed checks {idents} but produced no concrete playback test")
+                    # The solver's verdict stands (the same harness is discharged on the unchanged tree); only the
+                    # extra native replay is unavailable because Kani could not emit a concrete test (typically the
+                    # trace-producing re-run exceeds the cap). Reported as a violation, flagged as not replayed.
+                    rp["replay"] = {"mode": "unavailable", "why": "Kani produced no concrete playback test for the failing check"}
+                    rpath = save_replay(pid, h, [], r, note="replay unavailable: Kani produced no concrete playback test")
+                    rp["path"] = rpath
                     replays.append(rp)
+                    if h.finding and all(any(kf.get("property") == pid and kf.get("id") == h.finding and kf.get("harness") == h.name
+                                             and re.search(kf.get("check", "$^"), i) for kf in known) for i in idents):
+                        for kf in known:
+                            if kf.get("property") == pid and kf.get("id") == h.finding and kf.get("harness") == h.name:
+                                line = f"KNOWN-FINDING: property={pid} {kf['id']}: {kf['what']} [harness {h.name}]"
+                                if line not in known_lines:
+                                    known_lines.append(line)
+                    else:
+                        violations.append((h, idents, rpath))
                     continue
                 insert_tests(h, fail_tests)
                 reproduced = False
